@@ -148,6 +148,8 @@ func TestCheck(t *testing.T) {
 	}
 	rounds := r.N(8, 64)
 	pairs := allPairs()
+	serialOps := r.N(400, 4000)
+	nPurity := r.N(72, 576)
 
 	r.Rule(fmt.Sprintf("case = one (n,t) pair of the 45 pairs n in 2..10, 2<=t<=n (each pair visited once per round, %d rounds) x one secret "+
 		"(alternating PRNG keys and edge scalars 1, 2, r-1, r-2, 2^254, (r-1)/2, r-k, 0x55.., 0x73eda752ff..ff, r-2^32 built as tbls.PrivateKey bytes) x one PRNG message of length 0..256 "+
@@ -155,11 +157,16 @@ func TestCheck(t *testing.T) {
 		"EXHAUSTIVE part: for n <= %d every subset of size >= t and every non-empty subset of size < t of the returned shares is evaluated in every case; "+
 		"SAMPLED part: secrets, messages, polynomials; for n > %d up to %d distinct PRNG subsets of size >= t (all of them when fewer exist), all singletons and %d subsets of size t-1; "+
 		"single substitutions (foreign share of another secret / of a re-split of the same secret, relabelled index, partial over another message, partial from an unrelated key, malformed partial: zero / zeroed tail / infinity / bit flip) on up to %d PRNG subsets per case, every position of one size-t subset; "+
-		"non-trivial = at least one subset with more than t members or a substitution was evaluated; distinct = hash(n,t,split kind,secret,message)",
-		rounds, exhLimit, exhLimit, sampledPerNT, belowSampled, negSubsetsMax))
+		"non-trivial = at least one subset with more than t members or a substitution was evaluated; distinct = hash(n,t,split kind,secret,message); "+
+		"PURITY part (history / aliasing): a serial prologue of %d operations on one goroutine with nothing else running, then %d purity cases (1..4 concurrent actors x 24..47 operations, run among the other cases) over 2..3 key sets (n 2..5): "+
+		"Sign / all-shares-sign-one-buffer rounds / Verify with known expectation (valid, prefix-sharing other message, other message, other key, bit-flipped signature) / ThresholdAggregate (optionally right after a failing call) / RecoverSecret+RecoverPubkey / ThresholdSplit(+Insecure) / Aggregate+VerifyAggregate, "+
+		"key set chosen stickily (A-ops, B-ops, A-ops); messages are passed out of a scratch buffer overwritten in place (same / other length), a sub-slice of a larger buffer or a fresh copy; every slice and map handed to tbls is scribbled over after the call returns, returned maps after use; "+
+		"every result is compared with the result remembered for the same argument values and with the semantic oracles; a purity case is non-trivial when a message buffer was overwritten in place (same length) between two signing calls, distinct = hash of the operation traces",
+		rounds, exhLimit, exhLimit, sampledPerNT, belowSampled, negSubsetsMax, serialOps, nPurity))
 	r.Assume("herumi bls-eth-go-binary (pre-built native library) computes BLS12-381 group operations correctly; the oracle compares tbls outputs against each other (direct Sign/SecretToPublicKey of the undivided key), not against a second BLS implementation")
 	r.Assume("valid secrets are the scalars 1..r-1; 0 and values >= r are not keys (tbls itself rejects them) and are not generated")
 	r.Assume("polynomial coefficients drawn by the split are non-degenerate (a below-threshold subset or a substituted share reproduces the key only with probability ~2^-255)")
+	r.Assume("tbls is a pure-function API: byte arrays (keys, signatures) are values; only message slices and share / signature maps and slices can alias caller memory, and those are what the purity workload recycles")
 	r.Assume("the native CSPRNG state of herumi is initialised by one single-threaded GenerateSecretKey call before the parallel workload (concurrent first use makes the process abort in libc exit() with a double free; exit-time only, -race/-asan builds only)")
 	r.RacePkgs(false, "tbls")
 	r.Require("subsets_ge_t", 1000)
@@ -171,6 +178,11 @@ func TestCheck(t *testing.T) {
 	r.Require("neg/unrelated-key", 100)
 	r.Require("neg/malformed-partial", 100)
 	r.Require("malformed_signatures", 100)
+	r.Require("purity_ops/sign", 1000)
+	r.Require("purity_ops/share-round", 300)
+	r.Require("purity_ops/verify", 300)
+	r.Require("purity_inplace_same_length_overwrites_between_signs", 200)
+	r.Require("purity_repeated_calls_compared", 300)
 
 	// herumi initialises the static state behind SetByCSPRNG lazily and without synchronisation:
 	// when the first calls race, its destructor is registered twice and glibc aborts with "double
@@ -180,8 +192,19 @@ func TestCheck(t *testing.T) {
 		r.Violation(-1, "tbls/GenerateSecretKey/error-on-valid-input", err.Error(), nil)
 	}
 
-	n := len(pairs) * rounds
+	// History / aliasing dimension (purity_test.go): a strictly serial prologue, then purity cases with
+	// 1..4 concurrent actors mixed among the algebraic cases.
+	if !r.Replaying() {
+		runPuritySerial(r, serialOps)
+	}
+
+	base := len(pairs) * rounds
+	n := base + nPurity
 	r.Cases(n, 0, func(c *kit.Case) {
+		if c.Idx >= base {
+			runPurityCase(c)
+			return
+		}
 		p := pairs[c.Idx%len(pairs)]
 		round := c.Idx / len(pairs)
 		runCase(c, p, round, c.Idx%len(pairs), exhLimit)
